@@ -86,7 +86,7 @@ MUTANTS = [
     M("c11-input-grad-t", "C11", "break", [(FUNC, "            input_gO = torch.matmul(gO, other)", "            input_gO = torch.matmul(gO, other.t())")], "C11.R2"),
     M("c11-needs-grad-swapped", "C11", "break", [(FUNC, "        if ctx.needs_input_grad[1]:", "        if ctx.needs_input_grad[2]:")], "C11.R2"),
     M("c11-return-order", "C11", "break", [(FUNC, "        return input_gO, other_gO, bias_gO", "        return other_gO, input_gO, bias_gO")], "C11.R2"),
-    M("c11-saved-order", "C11", "break", [(FUNC, "        ctx.save_for_backward(input, other)", "        ctx.save_for_backward(other, input)")], "C11.R2"),
+    M("c11-saved-order", "C11", "break", [(FUNC, "        ctx.save_for_backward(input if ctx.needs_input_grad[1] else None, other)", "        ctx.save_for_backward(other, input if ctx.needs_input_grad[1] else None)")], "C11.R2"),
     M("c11-grad-factor", "C11", "break", [(FUNC, "            bias_gO = gO.sum(dim)", "            bias_gO = gO.sum(dim) * 2")], "C11.R2"),
     M("c11-qweight-cached", "C11", "break", [(QMOD, "    @property\n    def qweight(self):", "    @functools.cached_property\n    def qweight(self):")], "C11.R3"),
     M("c11-freeze-requires-grad", "C11", "break", [(QMOD, "            self.weight = torch.nn.Parameter(qweight, requires_grad=False)", "            self.weight = torch.nn.Parameter(qweight)")], "C11.R4"),
